@@ -62,6 +62,10 @@ def cases(tier, seed):
             if prof == "burst":
                 s["par"] = 8
         out.append(s)
+    # a healthy stage right after a failed one, in the same process
+    for i in range(6 if tier == "quick" else 80):
+        out.append(dict(stage="after_failure", profile="stall", par=R.choice([2, 3]), seed=R.randrange(1 << 30), long_item=False, kill_item=False,
+                        pyr=gens.gen_pyramid(R, maxdepth=3, mindepth=1, sub_p=0.2)))
     # the operating system refuses to start (some of) the workers: the stage must say so or still do everything
     for i in range(12 if tier == "quick" else 150):
         st = ["leaves", "mtan", "u8", "mwcs", "doone", "mtan"][i % 6]
@@ -272,6 +276,62 @@ def _make_npy_pyramid(d, depth, fill, R, mode):
             pio.write_image(Pos(*p), Image.from_array(arr), format="npy")
             present.add(p)
     return present
+
+
+def case_after_failure(spec, workdir):
+    """one process, two parallel stages: the first fails (its last leaf raises, late, so that the failure is found at wind-up),
+    the caller catches the error and runs a second, healthy stage - whose producer stalls between items.  Nothing of the first
+    stage (flags, queues, counters) may reach into the second."""
+    ps = spec["pyr"]
+    depth = ps["depth"]
+    apex = tuple(ps["apex"]) if ps.get("apex") else (0, 0, 0)
+    ref = rq.leaves(depth, gens.resolve_accepted(ps), apex)
+    if len(ref) < 2:
+        return dict(status="held", nontrivial=False, counters=dict(after_failure_skipped=1))
+    par = spec["par"]
+    last = sorted(ref)[-1]
+    instr_mp.install("stall", spec["seed"])
+    log = os.path.join(workdir, "log")
+    evlog.open_log(log)
+
+    def fn():
+        import time as _t
+
+        def bad(pos, tile):
+            if (int(pos.n), int(pos.x), int(pos.y)) == last:
+                _t.sleep(0.1)
+                raise ValueError("injected failure in the first stage")
+
+        try:
+            gens.build_pyramid(ps).visit_leaves(bad, parallel=par)
+            evlog.ev("first_stage_returned")
+        except RuntimeError:
+            evlog.ev("first_stage_failed")
+        evlog.ev("second_begin")
+
+        def cb(pos, tile):
+            p = (int(pos.n), int(pos.x), int(pos.y))
+            evlog.ev("cb_start", pos=p)
+            evlog.ev("cb_end", pos=p)
+
+        gens.build_pyramid(ps).visit_leaves(cb, parallel=par)
+
+    outcome, info = models.run_stage(fn, log, "producer", watchdog=120)
+    recs = evlog.read(log)
+    evlog.close_log()
+    if outcome == "watchdog":
+        return dict(status="inconclusive", detail="watchdog")
+    v = []
+    if not any(r["k"] == "first_stage_failed" for r in recs):
+        return dict(status="inconclusive", detail="the first stage did not fail as arranged (%s)" % outcome)
+    starts = collections.Counter(tuple(r["pos"]) for r in recs if r["k"] == "cb_start")
+    if outcome != "returned":
+        v.append(("second-stage-" + outcome, "after a failed first stage the second stage ended as %s %s" % (outcome, info)))
+    elif set(starts) != ref or any(n != 1 for n in starts.values()):
+        v.append(("second-stage-leaf-multiset", "after a failed first stage the second stage visited %d of %d leaves (max multiplicity %d)" % (len(starts), len(ref), max(starts.values()) if starts else 0)))
+    r = _result(spec, v, recs, log, items=len(ref), shape=["after-failure", ps["kind"], depth, par])
+    r["counters"]["stages_after_a_failed_stage"] = 1
+    return r
 
 
 def case_transform(spec, workdir):
@@ -559,6 +619,8 @@ def _brief(spec):
 
 
 def run_case(spec, workdir):
+    if spec["stage"] == "after_failure":
+        return case_after_failure(spec, workdir)
     if spec["stage"] == "leaves":
         return case_leaves(spec, workdir)
     if spec["stage"] in ("u8", "f16", "doone"):
